@@ -538,7 +538,7 @@ def extra_carriers(ctx, rec):
     for fn in ALL_FNS:
         if fn in ("loc", "speed"):
             continue
-        for rep in range(ctx.pick(40, 300) if fn in ("valid", "gross") else ctx.pick(5, 40)):
+        for rep in range(ctx.pick(40, 300) if fn in ("valid", "gross") else ctx.pick(20, 80)):
             c = g.base(fn)
             if fn == "valid" and c["p"]["kind"] == "time":
                 continue
@@ -553,7 +553,7 @@ def extra_carriers(ctx, rec):
     # single precision at the edge of its resolution: even numbers just above 2^24 are exact in float32, their
     # midpoints and odd differences are not -- arithmetic carried out in the carrier's own precision would show
     for fn in ("spike", "roc", "flat", "dens"):
-        for rep in range(ctx.pick(10, 60)):
+        for rep in range(ctx.pick(30, 120)):
             c = g.base(fn)
             c["x"] = [v if v == gen_qc.NA else 2 ** 24 + 2 * v for v in c["x"]]
             steps = [({"kind": "base", "i": 0, "k": 0}, c)]
@@ -682,8 +682,8 @@ def long_call(g, fn, N):
         if fn == "clim":
             c["t"] = tile(c["t"])
         else:
-            step = max(1, c["t"][1] - c["t"][0])
-            c["t"] = [c["t"][0] + i * step for i in range(N)]
+            step = max(1, min(c["t"][1] - c["t"][0], 100000))      # (N * step must stay a 32-bit integer for TLC)
+            c["t"] = [c["t"][0] % 100000 + i * step for i in range(N)]
     if c["z"]:
         c["z"] = tile(c["z"])
     return c
@@ -717,6 +717,24 @@ def extra_long_series(ctx, rec):
                         d["x"][pos] = (0 if d["x"][pos] == gen_qc.NA else d["x"][pos]) + 3
                     steps.append(({"kind": "perturb", "i": pos + 1, "k": 0}, d))
             rec.session(steps, CONCS[rep % 2])
+
+
+def extra_tighten_spike(ctx, rec):
+    """C16: 'adding a suspect threshold never downgrades a FAIL' -- spike calls with a fail threshold only, then with
+    a suspect threshold added below it, equal to it and ABOVE it (any suspect threshold is stricter than none)"""
+    g = gen_qc.Gen(ctx.seed + 167, size=ctx.pick(8, 14))
+    for rep in range(ctx.pick(80, 500)):
+        c = g.base("spike")
+        if c["p"]["method"] not in ("average", "differential") or not c["p"]["ft"]:
+            continue
+        c["p"]["st"] = []
+        f = c["p"]["ft"]
+        steps = [({"kind": "base", "i": 0, "k": 0}, c)]
+        for k, st in enumerate(([f[0] + 2 * f[1], f[1]], [f[0], f[1]], [max(0, f[0] - f[1]), f[1]], [f[0] + 5 * f[1], f[1]])):
+            d = json.loads(json.dumps(c))
+            d["p"]["st"] = st
+            steps.append(({"kind": "tighten", "i": 0, "k": k}, d))
+        rec.session(steps, CONCS[rep % len(CONCS)])
 
 
 def extra_tighten_clim(ctx, rec):
@@ -1010,7 +1028,7 @@ PLAN = {
                     [M("tighten_a", ["gross", "valid", "spike", "roc", "flat", "loc"], ["tighten"], 3, big=True, budget=120000),
                      M("tighten_b", ["att", "dens", "speed", "clim"], ["tighten"], 2, budget=120000)]),
             "random": {"fns": NOPRESS, "count": (500, 8000), "kinds": ["tighten", "tighten", "tighten"], "size": (8, 24)},
-            "extra": [extra_tighten_boxes, extra_tighten_clim]},
+            "extra": [extra_tighten_boxes, extra_tighten_clim, extra_tighten_spike]},
     "C17": {"mc": T([M("transforms", NOPRESS, ["shiftv", "negate", "shiftt", "shiftboth", "reverse"], 2, budget=14000),
                      M("locality", ["spike", "roc", "flat", "dens", "gross", "loc"], ["perturb"], 3, budget=10000)],
                     [M("transforms", NOPRESS, ["shiftv", "negate", "shiftt", "shiftboth", "reverse"], 3, budget=120000),
